@@ -919,7 +919,7 @@ Inductive P_from : list (op * bool * bool * bool) -> obs -> list obs -> Prop :=
 | P_end_tr h prev : P_from h prev []
 | P_step o chk lst strict h ob tr prev :
     (chk = true -> gate_obs o ob = true) -> declared_step prev ob = true -> forever_step prev ob = true -> cascade_obs ob = true ->
-    (strict = true -> logout_step prev ob = true) ->
+    (strict = true -> logout_step prev ob = true) -> (is_rolevote o = true -> ob_ok ob = false) ->
     P_from h ob tr -> P_from ((o, chk, lst, strict) :: h) prev (ob :: tr).
 
 Lemma P_trace_from_spec : forall h prev tr i, P_trace_from h prev tr i = 0%N <-> P_from h prev tr.
@@ -942,9 +942,14 @@ Proof.
       { split; [intro H; exfalso; lia | intro H; inversion H; subst].
         apply andb_true_iff in L. destruct L as [L1 L2].
         match goal with Hl : strict = true -> logout_step prev ob = true |- _ => rewrite (Hl L1) in L2 end. discriminate L2. }
+      destruct (is_rolevote o && ob_ok ob) eqn:V.
+      { split; [intro H; exfalso; lia | intro H; inversion H; subst].
+        apply andb_true_iff in V. destruct V as [V1 V2].
+        match goal with Hv : is_rolevote o = true -> ob_ok ob = false |- _ => rewrite (Hv V1) in V2 end. discriminate V2. }
       rewrite IH. split; [intro H; constructor; try assumption | intro H; inversion H; subst; assumption].
       * intro Hc. subst chk. cbn [andb] in G. destruct (gate_obs o ob); [reflexivity | discriminate G].
       * intro Hc. subst strict. cbn [andb] in L. destruct (logout_step prev ob); [reflexivity | discriminate L].
+      * intro Hc. rewrite Hc in V. cbn [andb] in V. exact V.
 Qed.
 
 Lemma P_b_spec h tr : P_b h tr = true <-> P_from (flat_mask h) obs0 tr.
@@ -1025,6 +1030,14 @@ Lemma restored_outcomes :
    map (fun e => (fst e, sv_status (snd e))) (ob_svcs (last_of (cfg_of_bits false true false))), ob_out (last_of (cfg_of_bits false true false)))
   = ([(10, St_Freezing); (20, St_Available)], 0, [(10, St_Pause); (20, St_Available)], 2)%N.
 Proof. vm_compute. reflexivity. Qed.
+
+(** the ballot of an account whose live role record does not say "available governance admin" is refused and
+    changes nothing (in the model: by definition of the operation; on the implementation: clause 6 of the trace
+    predicate, evaluated on every [ORoleVote] step) *)
+Lemma rolevote_refused f s r k a :
+  d_cache_failed_events f = false ->
+  r_ok (step f s (ORoleVote r k a)) = false /\ r_state (step f s (ORoleVote r k a)) = s.
+Proof. intro H. unfold step. cbn [prog_of run]. rewrite H. split; reflexivity. Qed.
 
 (** ** a locked proposal restored by the appchain's unpause
     A freeze proposal of service 10 is pending, its logout is submitted and locks it (service logouting); the appchain
